@@ -178,6 +178,12 @@ def _ns():
     return _NSC['ns']
 
 
+def _leak(e):
+    from pyvc.core import proxy_leak, OutOfSubset
+    if proxy_leak(e):
+        raise OutOfSubset('a proxy reached code outside the encoding: %s' % str(e)[:120])
+
+
 def _force(x):
     return x.force() if hasattr(x, 'force') else x
 
@@ -281,6 +287,7 @@ def unit_norm_shapes(job):
             try:
                 r = _force(norm(s))
             except Exception as e:
+                _leak(e)
                 c.oblige('normalize_event_code/an-accepted-code-is-normalised', False, 'raises', meta=dict(exc=type(e).__name__))
                 return None
             c.oblige('normalize_event_code/an-accepted-code-is-normalised', isinstance(r, (str, S.SStr)), 'raises')
@@ -292,6 +299,7 @@ def unit_norm_shapes(job):
                 r2 = _force(norm(r))
                 c.oblige('normalize_event_code/idempotent', zbool(sym_eq(r2, r)), 'post', meta=dict(result=repr(r), again=repr(r2)))
             except Exception as e:
+                _leak(e)
                 c.oblige('normalize_event_code/idempotent', False, 'post', meta=dict(result=repr(r), again='raises %s' % type(e).__name__))
             fs = _fams(P, s)
             c.oblige('normalize_event_code/same-families', fs == _fams(P, r), 'post', meta=dict(result=repr(r)))
@@ -311,6 +319,7 @@ def unit_norm_shapes(job):
                              'normalize_event_code/variant-normalises-to-the-identical-code', zbool(sym_eq(rv, r)), 'post',
                              meta=dict(variant=name, of=repr(s), result=repr(r), variant_result=repr(rv)))
                 except Exception as e:
+                    _leak(e)
                     c.oblige('normalize_event_code/variant-normalises-to-the-identical-code', False, 'post', meta=dict(variant=name, exc=type(e).__name__))
             return None
         merge(U.verify('normalize[%s]' % CS.show(shape), run, None, want_sample=(res_all is None)), shape, 'norm')
@@ -338,6 +347,7 @@ def unit_norm_shapes(job):
                 except ValueError:
                     c.oblige('normalize_event_code/normalises-exactly-the-accepted-strings', not ok, 'post', meta=dict(outcome='ValueError'))
                 except Exception as e:
+                    _leak(e)
                     c.oblige('normalize_event_code/only-ValueError-is-raised', False, 'raises', meta=dict(exc=type(e).__name__))
                 return None
             merge(U.verify('near-miss[%s@%d]' % (CS.show(shape), pos), runm, None, want_sample=False), mshape, 'miss')
@@ -628,6 +638,11 @@ def main(tier, seed):
         run.violation('normal-form-valid-stable-same-families-variants-agree/on-the-enumerated-language',
                       dict(call='normalize_event_code(%r) (and %d more codes)' % (v[0][0], len(v) - 1), observed=v[0][1], more=[x[0] for x in v[:10]],
                            input=['code', v[0][0]]), True)
+    if not any(v['obligation'].startswith(('refusal/', 'normal-form-valid')) for v in run.violations):
+        # a function that has left the modelled subset on this tree (in-subset undecided) falls back on the run-time contract
+        # over the enumerated language and the near-miss strings, which held: bounded, level other
+        run.standin_covers('normalize?*in-subset')
+        run.standin_covers('near-miss?*in-subset')
     run.extra['shapes_explored'] = nshape
     for d in _ns()[0].describe():
         run.add_function(d)
